@@ -44,4 +44,456 @@ Section One.
     Lemma map_hint : truthful uh -> forall l, hint_ok (hint (map_m uh f) l) (len (map f (items l))).
     Proof. intros T l. unfold len. rewrite map_length. apply T. Qed.
   End Map.
+
+  (* ------------------------------------------------------------------ filter_map *)
+  Section FilterMap.
+    Variable f : A -> option B.
+    Let m := filter_map_m uh f.
+
+    Lemma filter_map_runs : forall l, exists l', runs_to m l (filter_map_ref f (items l)) l'.
+    Proof.
+      induction l as [|[a| |] r [l' IH]]; simpl.
+      - exists []. apply R_end. reflexivity.
+      - destruct (f a) as [b|] eqn:E.
+        + exists l'. eapply R_rdy; [simpl; rewrite E; reflexivity|exact IH].
+        + exists l'. eapply runs_step_eq; [|exact IH]. simpl. rewrite E. reflexivity.
+      - exists l'. eapply R_pend; [reflexivity|exact IH].
+      - exists r. apply R_end. reflexivity.
+    Qed.
+
+    Lemma filter_map_dead : forall l, dead l -> ended_forever m l.
+    Proof.
+      apply (@ended_forever_inv _ m (fun l => dead l)). intros l D.
+      destruct l as [|x r]; [exists []; split; [reflexivity|exact D]|].
+      apply dead_inv in D. destruct D as [-> D]. exists r. split; [reflexivity|exact D].
+    Qed.
+
+    Lemma filter_map_ended : forall l l', fused_b l = true ->
+      filter_map_pull f l = (Ended, l') -> dead l'.
+    Proof.
+      induction l as [|[a| |] r IH]; simpl; intros l' F E.
+      - inv E. apply dead_nil.
+      - destruct (f a); [discriminate|]. apply IH; auto.
+      - discriminate.
+      - inv E. exact F.
+    Qed.
+
+    Lemma filter_map_fused : forall l l', fused_b l = true ->
+      pull1 m l = (Ended, l') -> ended_forever m l'.
+    Proof. intros l l' F E. apply filter_map_dead. eapply filter_map_ended; eauto. Qed.
+
+    Lemma filter_map_ref_length : forall l : list A, (length (filter_map_ref f l) <= length l)%nat.
+    Proof. induction l as [|a r IH]; simpl; [lia|]. destruct (f a); simpl; lia. Qed.
+
+    Lemma filter_map_hint : truthful uh -> forall l,
+      hint_ok (hint m l) (len (filter_map_ref f (items l))).
+    Proof.
+      intros T l. destruct (T l) as [_ U]. unfold hint_ok; simpl. unfold filter_map_hint; simpl.
+      pose proof (filter_map_ref_length (items l)). unfold len, rem in *. split; [lia|].
+      destruct (snd (uh l)); [lia|exact I].
+    Qed.
+  End FilterMap.
+
+  (* ------------------------------------------------------------------ flat_map *)
+  Section FlatMap.
+    Variable g : A -> list B.
+    Let m := flat_map_m (A := A) g.
+
+    Definition cur_items (cur : option (list B)) : list B :=
+      match cur with Some it => it | None => [] end.
+
+    Lemma flat_map_cur : forall l out s', runs_to m (None, l) out s' ->
+      forall it, runs_to m (Some it, l) (it ++ out) s'.
+    Proof.
+      intros l out s' R. induction it as [|b bs IH]; simpl.
+      - eapply runs_step_eq; [|exact R]. reflexivity.
+      - eapply R_rdy; [reflexivity|exact IH].
+    Qed.
+
+    Lemma flat_map_runs_none : forall l, exists s', runs_to m (None, l) (flat_map g (items l)) s'.
+    Proof.
+      induction l as [|[a| |] r [s' IH]]; simpl.
+      - exists (None, []). apply R_end. reflexivity.
+      - exists s'. destruct (g a) as [|b bs] eqn:E; simpl.
+        + eapply runs_step_eq; [|exact IH]. simpl. rewrite E. reflexivity.
+        + eapply R_rdy; [simpl; rewrite E; reflexivity|]. apply flat_map_cur. exact IH.
+      - exists s'. eapply R_pend; [reflexivity|exact IH].
+      - exists (None, r). apply R_end. reflexivity.
+    Qed.
+
+    Lemma flat_map_runs : forall cur l,
+      exists s', runs_to m (cur, l) (cur_items cur ++ flat_map g (items l)) s'.
+    Proof.
+      intros cur l. destruct (flat_map_runs_none l) as [s' R]. exists s'.
+      destruct cur as [it|]; simpl; [apply flat_map_cur|]; exact R.
+    Qed.
+
+    Lemma flat_map_dead : forall l, dead l -> ended_forever m (None, l).
+    Proof.
+      intros l D.
+      apply (@ended_forever_inv _ m (fun s => fst s = None /\ dead (snd s))); [|auto].
+      intros [cur l0] [C D0]; simpl in *; subst.
+      destruct l0 as [|x r]; [exists (None, []); split; [reflexivity|auto]|].
+      apply dead_inv in D0. destruct D0 as [-> D0]. exists (None, r). split; [reflexivity|auto].
+    Qed.
+
+    Lemma flat_map_fetch_ended : forall l s', fused_b l = true ->
+      flat_map_fetch g l = (Ended, s') -> fst s' = None /\ dead (snd s').
+    Proof.
+      induction l as [|[a| |] r IH]; simpl; intros s' F E.
+      - inv E. split; [reflexivity|apply dead_nil].
+      - destruct (g a); [|discriminate]. apply IH; auto.
+      - discriminate.
+      - inv E. split; [reflexivity|exact F].
+    Qed.
+
+    Lemma flat_map_fused : forall cur l s', fused_b l = true ->
+      pull1 m (cur, l) = (Ended, s') -> ended_forever m s'.
+    Proof.
+      intros cur l s' F E.
+      assert (flat_map_fetch g l = (Ended, s')) as E'.
+      { destruct cur as [[|b bs]|]; simpl in E; try exact E. discriminate. }
+      destruct (flat_map_fetch_ended _ F E') as [C D]. destruct s' as [c l']; simpl in *; subst.
+      apply flat_map_dead. exact D.
+    Qed.
+
+    Lemma flat_map_hint_ok : forall cur l,
+      hint_ok (hint m (cur, l)) (len (cur_items cur ++ flat_map g (items l))).
+    Proof.
+      intros cur l. unfold hint_ok, len; simpl. rewrite app_length. split; [|exact I].
+      destruct cur; simpl; lia.
+    Qed.
+  End FlatMap.
 End One.
+
+Section Same.
+  Variable A : Type.
+  Variable uh : script A -> hintT.
+
+  (* ------------------------------------------------------------------ inspect *)
+  Lemma inspect_runs : forall l, exists l', runs_to (inspect_m uh) l (items l) l'.
+  Proof.
+    induction l as [|[a| |] r [l' IH]]; simpl.
+    - exists []. apply R_end. reflexivity.
+    - exists l'. eapply R_rdy; [reflexivity|exact IH].
+    - exists l'. eapply R_pend; [reflexivity|exact IH].
+    - exists r. apply R_end. reflexivity.
+  Qed.
+
+  Lemma inspect_dead : forall l, dead l -> ended_forever (inspect_m uh) l.
+  Proof.
+    apply (@ended_forever_inv _ (inspect_m uh) (fun l => dead l)). intros l D.
+    destruct (dead_pull D) as [l' [E D']].
+    exists l'. split; [|exact D']. simpl. unfold inspect_pull. rewrite E. reflexivity.
+  Qed.
+
+  Lemma inspect_fused : forall l l', fused_b l = true ->
+    pull1 (inspect_m uh) l = (Ended, l') -> ended_forever (inspect_m uh) l'.
+  Proof.
+    intros l l' F E. apply inspect_dead. simpl in E. unfold inspect_pull in E.
+    destruct (src_pull l) as [[a| |] l1] eqn:E1; inv E. eapply fused_ended_dead; eauto.
+  Qed.
+
+  Lemma inspect_hint : truthful uh -> forall l, hint_ok (hint (inspect_m uh) l) (len (items l)).
+  Proof. intros T l. apply T. Qed.
+
+  (* ------------------------------------------------------------------ filter, take_while, skip_while *)
+  Section Pred.
+    Variable p : A -> bool.
+
+    Lemma filter_runs : forall l, exists l', runs_to (filter_m uh p) l (filter p (items l)) l'.
+    Proof.
+      induction l as [|[a| |] r [l' IH]]; simpl.
+      - exists []. apply R_end. reflexivity.
+      - destruct (p a) eqn:E.
+        + exists l'. eapply R_rdy; [simpl; rewrite E; reflexivity|exact IH].
+        + exists l'. eapply runs_step_eq; [|exact IH]. simpl. rewrite E. reflexivity.
+      - exists l'. eapply R_pend; [reflexivity|exact IH].
+      - exists r. apply R_end. reflexivity.
+    Qed.
+
+    Lemma filter_dead : forall l, dead l -> ended_forever (filter_m uh p) l.
+    Proof.
+      apply (@ended_forever_inv _ (filter_m uh p) (fun l => dead l)). intros l D.
+      destruct l as [|x r]; [exists []; split; [reflexivity|exact D]|].
+      apply dead_inv in D. destruct D as [-> D]. exists r. split; [reflexivity|exact D].
+    Qed.
+
+    Lemma filter_ended : forall l l', fused_b l = true -> filter_pull p l = (Ended, l') -> dead l'.
+    Proof.
+      induction l as [|[a| |] r IH]; simpl; intros l' F E.
+      - inv E. apply dead_nil.
+      - destruct (p a); [discriminate|]. apply IH; auto.
+      - discriminate.
+      - inv E. exact F.
+    Qed.
+
+    Lemma filter_fused : forall l l', fused_b l = true ->
+      pull1 (filter_m uh p) l = (Ended, l') -> ended_forever (filter_m uh p) l'.
+    Proof. intros l l' F E. apply filter_dead. eapply filter_ended; eauto. Qed.
+
+    Lemma filter_length_le' : forall l : list A, (length (filter p l) <= length l)%nat.
+    Proof. induction l as [|a r IH]; simpl; [lia|]. destruct (p a); simpl; lia. Qed.
+
+    Lemma upper_only_ok : truthful uh -> forall l (out : list A),
+      (length out <= length (items l))%nat -> hint_ok (0, snd (uh l)) (len out).
+    Proof.
+      intros T l out L. destruct (T l) as [_ U]. unfold hint_ok, len, rem in *; simpl.
+      split; [lia|]. destruct (snd (uh l)); [lia|exact I].
+    Qed.
+
+    Lemma filter_hint_ok : truthful uh -> forall l,
+      hint_ok (hint (filter_m uh p) l) (len (filter p (items l))).
+    Proof. intros T l. apply upper_only_ok; auto. apply filter_length_le'. Qed.
+
+    (* take_while: the reference stops at the first failing item; TakeWhile is not fused *)
+    Lemma take_while_runs : forall l,
+      exists l', runs_to (take_while_m uh p) l (take_while_ref p (items l)) l'.
+    Proof.
+      induction l as [|[a| |] r [l' IH]]; simpl.
+      - exists []. apply R_end. reflexivity.
+      - destruct (p a) eqn:E.
+        + exists l'. eapply R_rdy; [simpl; unfold take_while_pull; simpl; rewrite E; reflexivity|exact IH].
+        + exists r. apply R_end. simpl. unfold take_while_pull; simpl. rewrite E. reflexivity.
+      - exists l'. eapply R_pend; [reflexivity|exact IH].
+      - exists r. apply R_end. reflexivity.
+    Qed.
+
+    Lemma take_while_ref_length : forall l : list A, (length (take_while_ref p l) <= length l)%nat.
+    Proof. induction l as [|a r IH]; simpl; [lia|]. destruct (p a); simpl; lia. Qed.
+
+    Lemma take_while_hint_ok : truthful uh -> forall l,
+      hint_ok (hint (take_while_m uh p) l) (len (take_while_ref p (items l))).
+    Proof. intros T l. apply upper_only_ok; auto. apply take_while_ref_length. Qed.
+
+    (* skip_while *)
+    Definition skip_while_st_ref (st : bool * script A) : list A :=
+      if fst st then skip_while_ref p (items (snd st)) else items (snd st).
+
+    Lemma skip_while_runs_false : forall l,
+      exists s', runs_to (skip_while_m uh p) (false, l) (items l) s'.
+    Proof.
+      induction l as [|[a| |] r [s' IH]]; simpl.
+      - exists (false, []). apply R_end. reflexivity.
+      - exists s'. eapply R_rdy; [reflexivity|exact IH].
+      - exists s'. eapply R_pend; [reflexivity|exact IH].
+      - exists (false, r). apply R_end. reflexivity.
+    Qed.
+
+    Lemma skip_while_runs_true : forall l,
+      exists s', runs_to (skip_while_m uh p) (true, l) (skip_while_ref p (items l)) s'.
+    Proof.
+      induction l as [|[a| |] r [s' IH]]; simpl.
+      - exists (true, []). apply R_end. reflexivity.
+      - destruct (p a) eqn:E.
+        + exists s'. eapply runs_step_eq; [|exact IH]. simpl. unfold skip_while_pull; simpl.
+          rewrite E. reflexivity.
+        + destruct (skip_while_runs_false r) as [s2 R2]. exists s2.
+          eapply R_rdy; [|exact R2]. simpl. unfold skip_while_pull; simpl. rewrite E. reflexivity.
+      - exists s'. eapply R_pend; [reflexivity|exact IH].
+      - exists (true, r). apply R_end. reflexivity.
+    Qed.
+
+    Lemma skip_while_runs : forall st,
+      exists s', runs_to (skip_while_m uh p) st (skip_while_st_ref st) s'.
+    Proof.
+      intros [[|] l]; unfold skip_while_st_ref; simpl;
+        [apply skip_while_runs_true|apply skip_while_runs_false].
+    Qed.
+
+    Lemma skip_while_dead : forall st, dead (snd st) -> ended_forever (skip_while_m uh p) st.
+    Proof.
+      apply (@ended_forever_inv _ (skip_while_m uh p) (fun st => dead (snd st))).
+      intros [sk l] D; simpl in D.
+      destruct l as [|x r]; [exists (sk, []); split; [reflexivity|exact D]|].
+      apply dead_inv in D. destruct D as [-> D]. exists (sk, r). split; [reflexivity|exact D].
+    Qed.
+
+    Lemma skip_while_ended : forall l sk s', fused_b l = true ->
+      skip_while_pull_l p sk l = (Ended, s') -> dead (snd s').
+    Proof.
+      induction l as [|[a| |] r IH]; simpl; intros sk s' F E.
+      - inv E. apply dead_nil.
+      - destruct (sk && p a); [|discriminate]. eapply IH; eauto.
+      - discriminate.
+      - inv E. exact F.
+    Qed.
+
+    Lemma skip_while_fused : forall st s', fused_b (snd st) = true ->
+      pull1 (skip_while_m uh p) st = (Ended, s') -> ended_forever (skip_while_m uh p) s'.
+    Proof.
+      intros [sk l] s' F E. apply skip_while_dead. simpl in F, E. unfold skip_while_pull in E.
+      simpl in E. eapply skip_while_ended; eauto.
+    Qed.
+
+    Lemma skip_while_ref_length : forall l : list A, (length (skip_while_ref p l) <= length l)%nat.
+    Proof. induction l as [|a r IH]; simpl; [lia|]. destruct (p a); simpl; lia. Qed.
+
+    Lemma skip_while_hint_ok : truthful uh -> forall st,
+      hint_ok (hint (skip_while_m uh p) st) (len (skip_while_st_ref st)).
+    Proof.
+      intros T [[|] l]; unfold skip_while_st_ref; simpl; unfold skip_while_hint; simpl.
+      - apply upper_only_ok; auto. apply skip_while_ref_length.
+      - apply T.
+    Qed.
+  End Pred.
+
+  (* ------------------------------------------------------------------ take *)
+  Definition take_ref (st : N * script A) : list A := firstn (N.to_nat (fst st)) (items (snd st)).
+
+  Lemma take_runs : forall l n, exists s', runs_to (take_m uh) (n, l) (take_ref (n, l)) s'.
+  Proof.
+    unfold take_ref; simpl.
+    induction l as [|[a| |] r IH]; intros n; simpl.
+    - exists (if n =? 0 then (n, []) else (0, [])). rewrite firstn_nil. apply R_end. simpl.
+      destruct (n =? 0); reflexivity.
+    - destruct (n =? 0) eqn:E.
+      + apply N.eqb_eq in E. subst. exists (0, Rdy a :: r). apply R_end. reflexivity.
+      + apply N.eqb_neq in E. destruct (IH (n - 1)) as [s' R]. exists s'.
+        replace (N.to_nat n) with (S (N.to_nat (n - 1))) by lia. simpl.
+        eapply R_rdy; [|exact R]. simpl. destruct (n =? 0) eqn:E2; [apply N.eqb_eq in E2; lia|reflexivity].
+    - destruct (n =? 0) eqn:E.
+      + apply N.eqb_eq in E. subst. exists (0, Pend :: r). apply R_end. reflexivity.
+      + destruct (IH n) as [s' R]. exists s'. eapply R_pend; [|exact R]. simpl. rewrite E. reflexivity.
+    - rewrite firstn_nil. exists (if n =? 0 then (n, End :: r) else (0, r)). apply R_end. simpl.
+      destruct (n =? 0); reflexivity.
+  Qed.
+
+  Lemma take_zero : forall l, ended_forever (take_m uh) (0, l).
+  Proof.
+    intros l. apply (@ended_forever_inv _ (take_m uh) (fun st : N * script A => fst st = 0)); [|reflexivity].
+    intros [n l0] E; simpl in E; subst. exists (0, l0). split; reflexivity.
+  Qed.
+
+  (* Take is fused whatever its upstream does *)
+  Lemma take_fused : forall st s', pull1 (take_m uh) st = (Ended, s') -> ended_forever (take_m uh) s'.
+  Proof.
+    intros [n l] s' E. simpl in E. destruct (n =? 0) eqn:E0.
+    - inv E. apply N.eqb_eq in E0. subst. apply take_zero.
+    - destruct (src_pull l) as [[a| |] l1]; inv E. apply take_zero.
+  Qed.
+
+  Lemma take_hint_ok : truthful uh -> forall st, hint_ok (hint (take_m uh) st) (len (take_ref st)).
+  Proof.
+    intros T [n l]. destruct (T l) as [L U]. unfold hint_ok, take_ref, len, rem in *; simpl.
+    rewrite firstn_length. destruct (uh l) as [lo up]; simpl in *. split; [lia|].
+    destruct up; lia.
+  Qed.
+
+  (* ------------------------------------------------------------------ skip *)
+  Definition skip_ref (st : N * script A) : list A := skipn (N.to_nat (fst st)) (items (snd st)).
+
+  Lemma skip_runs : forall l n, exists s', runs_to (skip_m uh) (n, l) (skip_ref (n, l)) s'.
+  Proof.
+    unfold skip_ref; simpl.
+    induction l as [|[a| |] r IH]; intros n; simpl.
+    - exists (n, []). rewrite skipn_nil. apply R_end. reflexivity.
+    - destruct (0 <? n) eqn:E.
+      + apply N.ltb_lt in E. destruct (IH (n - 1)) as [s' R]. exists s'.
+        replace (N.to_nat n) with (S (N.to_nat (n - 1))) by lia. simpl.
+        eapply runs_step_eq; [|exact R]. simpl. unfold skip_pull; simpl.
+        destruct (0 <? n) eqn:E2; [reflexivity|apply N.ltb_ge in E2; lia].
+      + apply N.ltb_ge in E. assert (n = 0) by lia. subst. simpl.
+        destruct (IH 0) as [s' R]. simpl in R. exists s'. eapply R_rdy; [reflexivity|].
+        replace (items r) with (skipn (N.to_nat 0) (items r)) by reflexivity. exact R.
+    - destruct (IH n) as [s' R]. exists s'. eapply R_pend; [reflexivity|exact R].
+    - exists (n, r). rewrite skipn_nil. apply R_end. reflexivity.
+  Qed.
+
+  Lemma skip_dead : forall st, dead (snd st) -> ended_forever (skip_m uh) st.
+  Proof.
+    apply (@ended_forever_inv _ (skip_m uh) (fun st : N * script A => dead (snd st))).
+    intros [n l] D; simpl in D.
+    destruct l as [|x r]; [exists (n, []); split; [reflexivity|exact D]|].
+    apply dead_inv in D. destruct D as [-> D]. exists (n, r). split; [reflexivity|exact D].
+  Qed.
+
+  Lemma skip_ended : forall (l : script A) n s', fused_b l = true ->
+    skip_pull_l n l = (Ended, s') -> dead (snd s').
+  Proof.
+    induction l as [|[a| |] r IH]; simpl; intros n s' F E.
+    - inv E. apply dead_nil.
+    - destruct (0 <? n); [|discriminate]. eapply IH; eauto.
+    - discriminate.
+    - inv E. exact F.
+  Qed.
+
+  Lemma skip_fused : forall st s', fused_b (snd st) = true ->
+    pull1 (skip_m uh) st = (Ended, s') -> ended_forever (skip_m uh) s'.
+  Proof.
+    intros [n l] s' F E. apply skip_dead. simpl in F, E. unfold skip_pull in E.
+    simpl in E. eapply skip_ended; eauto.
+  Qed.
+
+  Lemma skip_hint_ok : truthful uh -> forall st, hint_ok (hint (skip_m uh) st) (len (skip_ref st)).
+  Proof.
+    intros T [n l]. destruct (T l) as [L U]. unfold hint_ok, skip_ref, len, rem in *; simpl.
+    unfold skip_hint; simpl. rewrite skipn_length. destruct (uh l) as [lo up]; simpl in *.
+    split; [lia|]. destruct up; simpl; [lia|exact I].
+  Qed.
+
+  (* ------------------------------------------------------------------ enumerate *)
+  Lemma enumerate_runs : forall l i,
+    exists s', runs_to (enumerate_m uh) (i, l) (enumerate_from i (items l)) s'.
+  Proof.
+    induction l as [|[a| |] r IH]; intros i; simpl.
+    - exists (i, []). apply R_end. reflexivity.
+    - destruct (IH (i + 1)) as [s' R]. exists s'. eapply R_rdy; [reflexivity|exact R].
+    - destruct (IH i) as [s' R]. exists s'. eapply R_pend; [reflexivity|exact R].
+    - exists (i, r). apply R_end. reflexivity.
+  Qed.
+
+  Lemma enumerate_dead : forall st, dead (snd st) -> ended_forever (enumerate_m uh) st.
+  Proof.
+    apply (@ended_forever_inv _ (enumerate_m uh) (fun st : N * script A => dead (snd st))).
+    intros [i l] D; simpl in D. destruct (dead_pull D) as [l' [E D']].
+    exists (i, l'). split; [|exact D']. simpl. rewrite E. reflexivity.
+  Qed.
+
+  Lemma enumerate_fused : forall st s', fused_b (snd st) = true ->
+    pull1 (enumerate_m uh) st = (Ended, s') -> ended_forever (enumerate_m uh) s'.
+  Proof.
+    intros [i l] s' F E. apply enumerate_dead. simpl in *.
+    destruct (src_pull l) as [[a| |] l1] eqn:E1; inv E. simpl. eapply fused_ended_dead; eauto.
+  Qed.
+
+  Lemma enumerate_from_length : forall (l : list A) i, length (enumerate_from i l) = length l.
+  Proof. induction l as [|a r IH]; intros i; simpl; [reflexivity|]. rewrite IH. reflexivity. Qed.
+
+  Lemma enumerate_hint_ok : truthful uh -> forall st,
+    hint_ok (hint (enumerate_m uh) st) (len (enumerate_from (fst st) (items (snd st)))).
+  Proof. intros T [i l]. unfold len. rewrite enumerate_from_length. apply T. Qed.
+
+  (* ------------------------------------------------------------------ fuse *)
+  Definition fuse_ref (st : option (script A)) : list A :=
+    match st with Some l => items l | None => [] end.
+
+  Lemma fuse_runs : forall st, exists s', runs_to (fuse_m uh) st (fuse_ref st) s'.
+  Proof.
+    intros [l|]; simpl; [|exists None; apply R_end; reflexivity].
+    induction l as [|[a| |] r [s' IH]]; simpl.
+    - exists None. apply R_end. reflexivity.
+    - exists s'. eapply R_rdy; [reflexivity|exact IH].
+    - exists s'. eapply R_pend; [reflexivity|exact IH].
+    - exists None. apply R_end. reflexivity.
+  Qed.
+
+  Lemma fuse_none : ended_forever (fuse_m uh) None.
+  Proof.
+    apply (@ended_forever_inv _ (fuse_m uh) (fun st => st = None)); [|reflexivity].
+    intros st ->. exists None. split; reflexivity.
+  Qed.
+
+  (* Fuse is fused whatever its upstream does after reporting the end *)
+  Lemma fuse_fused : forall st s', pull1 (fuse_m uh) st = (Ended, s') -> ended_forever (fuse_m uh) s'.
+  Proof.
+    intros [l|] s' E; simpl in E.
+    - destruct (src_pull l) as [[a| |] l1]; inv E. apply fuse_none.
+    - inv E. apply fuse_none.
+  Qed.
+
+  Lemma fuse_hint_ok : truthful uh -> forall st, hint_ok (hint (fuse_m uh) st) (len (fuse_ref st)).
+  Proof.
+    intros T [l|]; simpl; [apply T|]. unfold hint_ok, len; simpl. lia.
+  Qed.
+End Same.
